@@ -82,7 +82,10 @@ class AugmentedLagrangianOrder1(AugmentedLagrangianPenaltyHeuristic):
         x_opt: NumberArray,
     ) -> None:  # noqa:D107
         if self.__lagrange_multiplier_calculator is None:
+            # LagrangeMultipliers resets the problem, including its evaluation counter.
+            current_iteration = self._problem.evaluation_counter.current
             self.__lagrange_multiplier_calculator = LagrangeMultipliers(self._problem)
+            self._problem.evaluation_counter.current = current_iteration
 
         self.__lagrange_multiplier_calculator.compute(x_opt)
         lag_ms = self.__lagrange_multiplier_calculator.get_multipliers_arrays()
